@@ -34,6 +34,16 @@ type vhBacking struct {
 	reenter   int // number of re-entrant operations still allowed
 	loads     int
 	loadFails int
+	altKey    bool // requests for the first document spell its version in a non-canonical form the parser accepts
+}
+
+// reqKey is the version string a request for d carries: the canonical form, or (altKey) the same version with a leading
+// zero, which ParseVersion reads as the same version.
+func (b *vhBacking) reqKey(d *vhBucketDoc) string {
+	if b.altKey && d.id == vhDocIDs[0] {
+		return "0" + d.cv.String()
+	}
+	return d.cv.String()
 }
 
 func (b *vhBacking) toDocument(d *vhBucketDoc) *Document {
@@ -102,7 +112,7 @@ func vhCacheOp(b *vhBacking, op int, di int, nested bool) {
 	ctx := context.Background()
 	rc := b.rc
 	d := b.docs[vhDocIDs[di]]
-	key := d.cv.String()
+	key := b.reqKey(d)
 	switch op {
 	case 0: // Get by CV
 		failsBefore := b.loadFails
@@ -232,6 +242,10 @@ func vhNewRevCache(capacity int, faults bool, reenter int) *vhBacking {
 func VHarness_C16_History() {
 	capacity := vNondetRange(1, 2)
 	b := vhNewRevCache(capacity, vParam("faults", 1) == 1, vParam("reenter", 1))
+	b.altKey = vParam("altkey", 1) == 1 && vNondetBool()
+	if b.altKey {
+		b.reenter = 0 // bound: non-canonical spellings are explored in sequential histories (with load failures) only
+	}
 	k := vParam("ops", 3)
 	for i := 0; i < k; i++ {
 		op := vNondetRange(0, 6)
@@ -242,6 +256,7 @@ func VHarness_C16_History() {
 	// emptying the cache returns both gauges to zero
 	for _, id := range vhDocIDs {
 		b.rc.Remove(context.Background(), id, b.docs[id].cv.String(), 0)
+		b.rc.Remove(context.Background(), id, b.reqKey(b.docs[id]), 0)
 		b.rc.Remove(context.Background(), id, b.docs[id].revID, 0) // GetActive caches under the revision-tree id
 	}
 	vAssert(len(b.rc.cache) == 0 && b.rc.cacheNumItems.Value() == 0, "emptied cache: item gauge is zero")
